@@ -130,6 +130,25 @@ example : Orthogonal (rotZ (3 / 5 : ℚ) (4 / 5)) := (rotZ_proper _ _ (by norm_n
 theorem transform_symm (T : M33 K) (C : T4 K) (hm : MinorSymm C) (hM : MajorSymm C) :
     MinorSymm (rot T C) ∧ MajorSymm (rot T C) := ⟨rot_minor T hm, rot_major T hM⟩
 
+/-- the rotation is linear in the tensor (so a weak anisotropy `C₀ + ε·D` rotates to `rot C₀ + ε·rot D`: an
+    isotropic part stays, the anisotropic part is rotated however small it is). -/
+theorem transform_linear (T : M33 K) (a b : K) (C D : T4 K) (i j k l : Fin 3) :
+    rot T (fun i j k l => a * C i j k l + b * D i j k l) i j k l = a * rot T C i j k l + b * rot T D i j k l := by
+  simp only [rot, transC, transQ, sum3]
+  ring
+
+/-- unit systems: the same material expressed in other units (`a·C`, `a > 0`) is rotated and cleaned to `a` times
+    the result — the rotation is homogeneous and the clean-up `|C/Cmax| < tol` is relative, so no entry is kept or
+    dropped because of the size of the numbers.  (What `transform` hands to the `Cijkl` setter.) -/
+theorem transform_unit_independent (tol a : K) (ha : 0 < a) (T : M33 K) (C : T4 K) (i j k l : Fin 3) :
+    cleanT4 tol (max4 (rot T (fun i j k l => a * C i j k l))) (rot T (fun i j k l => a * C i j k l)) i j k l
+      = a * cleanT4 tol (max4 (rot T C)) (rot T C) i j k l := by
+  have h : rot T (fun i j k l => a * C i j k l) = fun i j k l => a * rot T C i j k l := by
+    funext i j k l
+    have := transform_linear T a 0 C C i j k l
+    simpa using this
+  rw [h]; exact cleanT4_smul tol a ha (rot T C) i j k l
+
 /-- strain-energy density of a co-rotated strain: `ε' = T ε Tᵀ ⇒ ε' : C' : ε' = ε : C : ε`. -/
 theorem energy_invariant (T : M33 K) (h : Orthogonal T) (C : T4 K) (e : M33 K) :
     energy (rot T C) (conj T e) = energy C e := energy_rot T h C e
